@@ -4,9 +4,24 @@
 //! Task interleaving is tokio's (with `select!` randomness and hash-map orders), so the output is not compared with a
 //! model: the trace is judged by the Lean monitor (`e2e`).
 //!
+//!
+//! The value and map lanes are RENAMED: their fields are `val_state` / `map_state`, their external names stay `val` /
+//! `map` (`#[item(name = ..)]`); the HTTP lane field `web_api` is exposed as `webApi` (camel convention). Requests are
+//! addressed by external name, the lifecycle is labelled by field name.
+//!
 //! ops:  cfg <lane-out-buf> | attach <r> <cap> | link|sync|unlink <r> <lane> | cmd <r> <lane> <body-hex>
 //!       | read <r> <n> | drain | drop <r> | stop
-//! out:  f=<frames> h=<agent-side history since the previous op>      frame = r<r>:<lane>:<kind>[:<body>]
+//!       | http <get|post|put|delete|head> <n>    a real HTTP lane request through the runtime's HTTP channel; the
+//!                                                response is awaited (`st=<code> b=<body>`)
+//!       | httpd <method> <n>                     the same, but the response receiver is dropped BEFORE the request is
+//!                                                sent (a client that went away): `st=dropped`; always settles
+//! out:  f=<frames> h=<agent-side history since the previous op> [st=<status> b=<body>]
+//!       frame = r<r>:<lane>:<kind>[:<body>]
+//!
+//! HTTP handlers (n%3 chooses the lane: 0 value lane := n, 1 map entry MAP_KEYS[n%4] := n, 2 push n to the supply lane):
+//! `on_post` makes the change in a NON-final step (`change.followed_by(value(response))`), `on_put` in its FINAL step
+//! (`change.map(|_| response)`); `on_get` answers with the value lane's content. The handlers log `http:<m>:<n>`; the
+//! changes themselves are logged where they happen (`on_event` / `on_update` of the lanes, `sup:n` before the push).
 use std::collections::{BTreeMap, HashMap};
 use std::num::NonZeroUsize;
 use std::sync::{Arc, Mutex};
@@ -18,12 +33,16 @@ use svh::{hex, parse_args, unhex, Mode, Rng, Trace};
 use swimos::agent::agent_model::AgentModel;
 use swimos::agent::{
     agent_lifecycle::HandlerContext,
-    event_handler::{EventHandler, HandlerActionExt},
-    lanes::{CommandLane, MapLane, SupplyLane, ValueLane},
+    event_handler::{EventHandler, HandlerAction, HandlerActionExt},
+    lanes::{
+        http::{HttpRequestContext, Response, UnitResponse},
+        CommandLane, MapLane, SimpleHttpLane, SupplyLane, ValueLane,
+    },
     lifecycle, projections, AgentLaneModel,
 };
 use swimos_api::address::RelativeAddress;
-use swimos_api::agent::{AgentConfig, LaneConfig};
+use swimos_api::agent::{AgentConfig, HttpLaneRequest, LaneConfig};
+use swimos_api::http::{HttpRequest, Method, Version};
 use swimos_messages::protocol::{
     Notification, RawRequestMessageEncoder, RawResponseMessageDecoder, RequestMessage,
 };
@@ -40,10 +59,15 @@ use uuid::Uuid;
 #[projections]
 #[derive(AgentLaneModel)]
 pub struct TestAgent {
-    val: ValueLane<i32>,
-    map: MapLane<i32, i32>,
+    #[item(name = "val")]
+    val_state: ValueLane<i32>,
+    #[item(name = "map")]
+    map_state: MapLane<i32, i32>,
     sup: SupplyLane<i32>,
     cmd: CommandLane<i32>,
+    /// external name `webApi`
+    #[item(convention = "camel")]
+    web_api: SimpleHttpLane<i32>,
 }
 
 type Log = Arc<Mutex<Vec<String>>>;
@@ -55,14 +79,14 @@ pub struct TestLifecycle {
 
 #[lifecycle(TestAgent)]
 impl TestLifecycle {
-    #[on_event(val)]
+    #[on_event(val_state)]
     pub fn on_val(&self, context: HandlerContext<TestAgent>, value: &i32) -> impl EventHandler<TestAgent> {
         let log = self.log.clone();
         let v = *value;
         context.effect(move || log.lock().unwrap().push(format!("val:{}", v)))
     }
 
-    #[on_update(map)]
+    #[on_update(map_state)]
     pub fn on_update(
         &self,
         context: HandlerContext<TestAgent>,
@@ -76,7 +100,7 @@ impl TestLifecycle {
         context.effect(move || log.lock().unwrap().push(format!("map:upd:{}:{}", key, v)))
     }
 
-    #[on_remove(map)]
+    #[on_remove(map_state)]
     pub fn on_remove(
         &self,
         context: HandlerContext<TestAgent>,
@@ -88,7 +112,7 @@ impl TestLifecycle {
         context.effect(move || log.lock().unwrap().push(format!("map:rem:{}", key)))
     }
 
-    #[on_clear(map)]
+    #[on_clear(map_state)]
     pub fn on_clear(
         &self,
         context: HandlerContext<TestAgent>,
@@ -112,15 +136,81 @@ impl TestLifecycle {
                 .effect(move || log2.lock().unwrap().push(format!("sup:{}", n)))
                 .followed_by(context.supply(TestAgent::SUP, n))
                 .boxed_local(),
-            1 => context.set_value(TestAgent::VAL, n).boxed_local(),
-            2 => context.update(TestAgent::MAP, key, n).boxed_local(),
+            1 => context.set_value(TestAgent::VAL_STATE, n).boxed_local(),
+            2 => context.update(TestAgent::MAP_STATE, key, n).boxed_local(),
             // insert-or-replace through `transform_entry` (the entry may be absent)
-            4 => context.transform_entry(TestAgent::MAP, key, move |_| Some(n)).boxed_local(),
-            _ => context.remove(TestAgent::MAP, key).boxed_local(),
+            4 => context.transform_entry(TestAgent::MAP_STATE, key, move |_| Some(n)).boxed_local(),
+            _ => context.remove(TestAgent::MAP_STATE, key).boxed_local(),
+        };
+        note.followed_by(act)
+    }
+
+    /// GET: the content of the value lane.
+    #[on_get(web_api)]
+    pub fn on_get(
+        &self,
+        context: HandlerContext<TestAgent>,
+        _http: HttpRequestContext,
+    ) -> impl HandlerAction<TestAgent, Completion = Response<i32>> {
+        let log = self.log.clone();
+        context
+            .effect(move || log.lock().unwrap().push("http:get:0".to_string()))
+            .followed_by(context.get_value(TestAgent::VAL_STATE))
+            .map(Response::from)
+    }
+
+    /// POST n: the lane change is a NON-final step of the handler (the response value follows it).
+    #[on_post(web_api)]
+    pub fn on_post(
+        &self,
+        context: HandlerContext<TestAgent>,
+        _http: HttpRequestContext,
+        n: i32,
+    ) -> impl HandlerAction<TestAgent, Completion = UnitResponse> {
+        let log = self.log.clone();
+        let note = context.effect(move || log.lock().unwrap().push(format!("http:post:{}", n)));
+        let log2 = self.log.clone();
+        let key = MAP_KEYS[n.rem_euclid(4) as usize];
+        let respond = context.value(UnitResponse::default());
+        let act = match n.rem_euclid(3) {
+            0 => context.set_value(TestAgent::VAL_STATE, n).followed_by(respond).boxed_local(),
+            1 => context.update(TestAgent::MAP_STATE, key, n).followed_by(respond).boxed_local(),
+            _ => context
+                .effect(move || log2.lock().unwrap().push(format!("sup:{}", n)))
+                .followed_by(context.supply(TestAgent::SUP, n))
+                .followed_by(respond)
+                .boxed_local(),
+        };
+        note.followed_by(act)
+    }
+
+    /// PUT n: the lane change is the FINAL step of the handler (its result is mapped to the response).
+    #[on_put(web_api)]
+    pub fn on_put(
+        &self,
+        context: HandlerContext<TestAgent>,
+        _http: HttpRequestContext,
+        n: i32,
+    ) -> impl HandlerAction<TestAgent, Completion = UnitResponse> {
+        let log = self.log.clone();
+        let note = context.effect(move || log.lock().unwrap().push(format!("http:put:{}", n)));
+        let log2 = self.log.clone();
+        let key = MAP_KEYS[n.rem_euclid(4) as usize];
+        let act = match n.rem_euclid(3) {
+            0 => context.set_value(TestAgent::VAL_STATE, n).map(|_| UnitResponse::default()).boxed_local(),
+            1 => context.update(TestAgent::MAP_STATE, key, n).map(|_| UnitResponse::default()).boxed_local(),
+            _ => context
+                .effect(move || log2.lock().unwrap().push(format!("sup:{}", n)))
+                .followed_by(context.supply(TestAgent::SUP, n))
+                .map(|_| UnitResponse::default())
+                .boxed_local(),
         };
         note.followed_by(act)
     }
 }
+
+/// External name of the HTTP lane (field `web_api`, camel convention).
+const HTTP_LANE_URI: &str = "http://example:8080/node?lane=webApi";
 
 /// Map keys used by the scripts: their decimal text order differs from their numeric order.
 const MAP_KEYS: [i32; 4] = [2, 10, 33, 7];
@@ -160,6 +250,7 @@ fn render_body(lane: &str, body: &[u8]) -> String {
 
 struct Rig {
     att_tx: mpsc::Sender<AgentAttachmentRequest>,
+    http_tx: mpsc::Sender<HttpLaneRequest>,
     remotes: BTreeMap<u64, RemoteCtx>,
     log: Log,
     stop: Option<trigger::Sender>,
@@ -224,6 +315,8 @@ impl Rig {
         };
         let p: Vec<&str> = op.split_whitespace().collect();
         let mut frames: Vec<String> = vec![];
+        let mut extra = String::new();
+        let mut force_settle = false;
         match p.as_slice() {
             ["attach", r, cap] => {
                 let r: u64 = r.parse().unwrap();
@@ -274,6 +367,52 @@ impl Rig {
                     }
                 }
             }
+            [kind @ ("http" | "httpd"), method, n] => {
+                let n: i32 = n.parse().unwrap_or(0);
+                let (method, payload) = match *method {
+                    "get" => (Method::GET, Bytes::new()),
+                    "head" => (Method::HEAD, Bytes::new()),
+                    "delete" => (Method::DELETE, Bytes::new()),
+                    "post" => (Method::POST, Bytes::from(n.to_string())),
+                    "put" => (Method::PUT, Bytes::from(n.to_string())),
+                    _ => return "bad-op".into(),
+                };
+                let (req, rx) = HttpLaneRequest::new(HttpRequest {
+                    method,
+                    version: Version::HTTP_1_1,
+                    uri: http::Uri::from_static(HTTP_LANE_URI),
+                    headers: vec![],
+                    payload,
+                });
+                if *kind == "httpd" {
+                    // the client went away before the request reached the agent
+                    drop(rx);
+                    force_settle = true;
+                    extra = match tokio::time::timeout(Duration::from_secs(5), self.http_tx.send(req)).await {
+                        Ok(Ok(())) => " st=dropped".to_string(),
+                        _ => " st=gone".to_string(),
+                    };
+                } else {
+                    extra = match tokio::time::timeout(Duration::from_secs(5), self.http_tx.send(req)).await {
+                        Ok(Ok(())) => match tokio::time::timeout(Duration::from_secs(5), rx).await {
+                            Ok(Ok(resp)) => {
+                                let body = String::from_utf8_lossy(resp.payload.as_ref()).to_string();
+                                let b = if body.is_empty() {
+                                    "-".to_string()
+                                } else if body.chars().all(|c| c.is_ascii_digit() || c == '-') {
+                                    body
+                                } else {
+                                    format!("raw:{}", hex(resp.payload.as_ref()))
+                                };
+                                format!(" st={} b={}", resp.status_code.as_u16(), b)
+                            }
+                            Ok(Err(_)) => " st=lost".to_string(),
+                            Err(_) => " st=timeout".to_string(),
+                        },
+                        _ => " st=gone".to_string(),
+                    };
+                }
+            }
             ["read", r, n] => {
                 self.settle().await;
                 frames = self.read_some(r.parse().unwrap(), n.parse().unwrap()).await;
@@ -320,15 +459,16 @@ impl Rig {
             }
             _ => return "bad-op".into(),
         }
-        if !nosettle && !matches!(p.as_slice(), ["read", ..] | ["drain"] | ["stop"]) {
+        if (!nosettle || force_settle) && !matches!(p.as_slice(), ["read", ..] | ["drain"] | ["stop"]) {
             self.settle().await;
         }
         let hist: Vec<String> = std::mem::take(&mut *self.log.lock().unwrap());
         let _ = &self.remotes.values().map(|c| &c.completion).count();
         format!(
-            "f={} h={}",
+            "f={} h={}{}",
             if frames.is_empty() { "-".to_string() } else { frames.join(",") },
-            if hist.is_empty() { "-".to_string() } else { hist.join(",") }
+            if hist.is_empty() { "-".to_string() } else { hist.join(",") },
+            extra
         )
     }
 }
@@ -348,7 +488,7 @@ async fn run_case_async(ops: Vec<String>) -> Vec<(String, String)> {
     let lc = TestLifecycle { log: log.clone() };
     let agent = AgentModel::new(TestAgent::default, lc.into_lifecycle());
     let (att_tx, att_rx) = mpsc::channel(16);
-    let (_http_tx, http_rx) = mpsc::channel(16);
+    let (http_tx, http_rx) = mpsc::channel(16);
     let (link_tx, mut link_rx) = mpsc::channel(16);
     let (stop_tx, stop_rx) = trigger::trigger();
     let long = Duration::from_secs(3600 * 24);
@@ -392,7 +532,7 @@ async fn run_case_async(ops: Vec<String>) -> Vec<(String, String)> {
     };
     let links = async move { while link_rx.recv().await.is_some() {} };
     let driver = async {
-        let mut rig = Rig { att_tx, remotes: BTreeMap::new(), log, stop: Some(stop_tx) };
+        let mut rig = Rig { att_tx, http_tx, remotes: BTreeMap::new(), log, stop: Some(stop_tx) };
         let mut out = vec![];
         for op in ops.iter().skip(start) {
             let o = rig.exec(op).await;
@@ -466,6 +606,26 @@ fn gen_case(rng: &mut Rng) -> Vec<String> {
             ops.push(format!("unlink {} {}", r, rng.pick(&lanes[..3])));
         } else if c < 30 {
             ops.push(format!("{} {} nolane", if rng.chance(1, 2) { "link" } else { "sync" }, r));
+        } else if c < 38 {
+            // HTTP lane requests (about 8% of the ops): the handlers change the lanes from inside the agent
+            match rng.below(20) {
+                0..=4 => ops.push("http get 0".into()),
+                5..=10 => {
+                    n += 1;
+                    ops.push(format!("http post {}", n));
+                }
+                11..=16 => {
+                    n += 1;
+                    ops.push(format!("http put {}", n));
+                }
+                17 => {
+                    // the client goes away before the request is handled; the change is a non-final step
+                    n += 1;
+                    ops.push(format!("httpd post {}", n));
+                }
+                18 => ops.push(format!("http {} 0", if rng.chance(1, 2) { "head" } else { "delete" })),
+                _ => ops.push("httpd get 0".into()),
+            }
         } else if c < 75 {
             n += 1;
             match rng.below(10) {
@@ -492,6 +652,17 @@ fn gen_case(rng: &mut Rng) -> Vec<String> {
         }
     }
     ops.push("drain".into());
+    // after everything has been judged: a PUT (lane change = FINAL step of the handler) whose client went away
+    // before the request was handled. Value and map lanes only: for the supply lane the loss is not visible on the
+    // line of the request itself.
+    if rng.chance(1, 6) {
+        n += 1;
+        while n % 3 == 2 {
+            n += 1;
+        }
+        ops.push(format!("httpd put {}", n));
+        ops.push("drain".into());
+    }
     if rng.chance(1, 2) {
         ops.push("stop".into());
     }
@@ -499,7 +670,11 @@ fn gen_case(rng: &mut Rng) -> Vec<String> {
     let burst = rng.below(3);
     ops.into_iter()
         .map(|o| {
-            let is_req = o.starts_with("link") || o.starts_with("sync") || o.starts_with("unlink") || o.starts_with("cmd");
+            let is_req = o.starts_with("link")
+                || o.starts_with("sync")
+                || o.starts_with("unlink")
+                || o.starts_with("cmd")
+                || o.starts_with("http ");
             if is_req && burst > 0 && rng.chance(burst, 3) {
                 format!("!{}", o)
             } else {
